@@ -68,6 +68,7 @@ def _end_to_end(w):
     import fast_ticc
     from fast_ticc import graphical_lasso as gl
     lim = int(w['notes'].get('limit', 1))
+    one_variable = bool(w['notes'].get('real_stats'))      # one sensor, window 1: np.cov hands back 0-d arrays
     real_opt = gl.optimize_markov_random_fields
     res = None
     for seed in range(12):
@@ -75,7 +76,7 @@ def _end_to_end(w):
         # limit the last relabelling differs from the labelling the last fit was made for
         rng = np.random.default_rng(seed)
         means = np.repeat(np.array([0.0, 1.5, 3.0] * 4), 10)
-        data = rng.standard_normal((120, 2)) + means[:, None]
+        data = rng.standard_normal((120, 1 if one_variable else 2)) + means[:, None]
         fits = []
 
         def spy(model, d, pool):
@@ -85,7 +86,7 @@ def _end_to_end(w):
         gl.optimize_markov_random_fields = spy
         try:
             np.random.seed(seed)
-            res = fast_ticc.ticc_labels(data, window_size=2, num_clusters=3, iteration_limit=lim, min_cluster_size=3,
+            res = fast_ticc.ticc_labels(data, window_size=1 if one_variable else 2, num_clusters=3, iteration_limit=lim, min_cluster_size=3,
                                         sparsity_weight=0.1, label_switching_cost=6.0)
         except Exception:
             res = None
@@ -94,7 +95,7 @@ def _end_to_end(w):
         if res is None or not fits:
             continue
         final = [int(x) for x in res.point_labels if int(x) >= 0]
-        if final != [int(x) for x in fits[-1].point_labels]:
+        if final != [int(x) for x in fits[-1].point_labels] or one_variable:
             break
     if res is None or not fits:
         return {'reproduced': False, 'signature': None, 'observed': {'no_completed_run': True}}
@@ -107,7 +108,7 @@ def _end_to_end(w):
             last = l
     cnt = [int(np.sum(np.abs(cl.train_inverse) > 2e-5)) for cl in fitted.clusters]
     want = sum(cnt[k] for k in runs) * math.log(len(labels)) - 2 * sum(
-        np.linalg.slogdet(cl.train_inverse)[1] - float(np.trace(cl.train_inverse @ cl.empirical_covariance))
+        np.linalg.slogdet(cl.train_inverse)[1] - float(np.trace(cl.train_inverse @ np.atleast_2d(cl.empirical_covariance)))
         for cl in fitted.clusters)
     got = float(res.bayesian_information_criterion)
     bad = not close(got, want, rel=1e-9, ab=1e-9)
